@@ -99,7 +99,7 @@ def address_plumbing(I, h):
 
 CR = ["types", "hash"]
 HARNESSES = {
-    "addrs_canonical": dict(props=["C17", "C04"], crates=CR, fn=addrs_canonical, params=dict(quick=dict(nmax=3), thorough=dict(nmax=4)), witnesses=["ok"],
+    "addrs_canonical": dict(props=["C17", "C04", "C19"], crates=CR, fn=addrs_canonical, params=dict(quick=dict(nmax=3), thorough=dict(nmax=4)), witnesses=["ok"],
         bound=dict(quick="0..3 addresses (bytes 0, 5 and 31 symbolic, so equal addresses and addresses differing only late are inside), slice and iterator constructors, with and without salt; SHA-256 uninterpreted", thorough="0..4 addresses"),
         replay=dict(kind="hash_addrs")),
     "address_plumbing": dict(props=["C17"], crates=CR, fn=address_plumbing, witnesses=["ok"],
